@@ -1,12 +1,11 @@
-"""C14 - the command line tool never emits more bytes than it was given (structural clauses)."""
+"""C14 - the command line tool never emits more bytes than it was given (decided by evaluating the entry point on enumerated scenarios)."""
 import ast
 
-from ..astutil import calls, expanded_facts, local_defs
-from ..facts import implies_le, fact_texts
-from ..model import AnalysisError, src, walk_own
-from .cli_common import MAIN, NOT_BENEFICIAL, MainAnalysis
+from . import cli_e2e as E
+from ..model import AnalysisError, src
 
-OVERRIDE = 'PYMINIFY_FORCE_BEST_EFFORT'
+MAIN = 'python_minifier.__main__'
+OVERRIDE = E.OVERRIDE
 
 
 def env_reads(model):
@@ -39,148 +38,27 @@ def env_reads(model):
 
 
 def run(model, rep):
-    rep.explanation = ('Decides the structural clauses of C14 on __main__.py: (CMP) every value do_minify returns is the UTF-8 encoding of the '
-                       'minify() result and is returned only under the fact len(that value) <= len(source) - or under the documented environment '
-                       'override; (CATCH) every do_minify call in main() is inside a try that catches MinificationNotBeneficialError; (SINKS) in that '
-                       'handler only the bytes read are written, elsewhere only the do_minify result; (ENV) the override is the only environment read. '
-                       'Not decided: behaviour of the operating system write itself.')
-    rep.rule('C14.CMP', 'each return of do_minify carries len(returned bytes) <= len(source) or the override fact; operands are bytes')
-    rep.rule('C14.CATCH', 'each do_minify call in main is in a try catching MinificationNotBeneficialError')
-    rep.rule('C14.SINKS', 'payload written in the not-beneficial handler is the source read; outside it is the do_minify result')
-    rep.rule('C14.ENV', 'only environment read in the package is the documented override, inside do_minify')
-    A = MainAnalysis(model)
-    dm = A.do_minify
-    F = A.facts[dm.qual]
-    defs = A.defs[dm.qual]
-    mcall = A.minify_call()
-    src_param = dm.positional[0] if dm.positional else None
-    # the source handed to minify must be do_minify's own first parameter, unmodified
-    first = mcall.args[0] if mcall.args else None
-    ok_src = isinstance(first, ast.Name) and first.id == src_param and defs.get(src_param) == ['<param>']
-    rep.check(ok_src, 'C14.CMP', dm.loc(mcall), 'minify(%s, ...)' % src(first), 'source parameter reaches minify unmodified',
-              'the bytes that are measured (%s) are not the bytes handed to minify' % src_param, key='C14.CMP|source-wiring')
+    rep.explanation = ('main() of the command line module is evaluated by the abstract interpreter inside a modelled environment (pmstatic.clirun; see C13). '
+                       '(SIZE) over the output modes (stdin, file, several files, directory tree; stdout, --output, --in-place) every source is answered by '
+                       'minify() with a text that is shorter, longer, longer only when counted in bytes (non-ASCII), or equally long, alone and mixed along the '
+                       'file list, with and without the override variable; plus 42 boundary cases of (answer length, source length, override) through stdin. '
+                       'What reaches each destination must be the UTF-8 encoding of the answer when that is not larger in bytes than the source (or the '
+                       'override is set), and the untouched source otherwise - per file, also when an earlier or later file goes the other way. '
+                       '(ENV) a syntactic scan of the whole package: the only read of the process environment is the documented override, and the evaluated '
+                       'runs consult no other variable. No shape of main / do_minify is assumed (the fallback may be an exception, a return value, a helper). '
+                       'Not decided: behaviour of the operating system write itself; sources beyond the enumerated length relations.')
+    rep.rule('C14.SIZE', 'every destination receives at most len(source) bytes: the encoded answer when not larger in bytes, else the untouched source; only the override turns this off (enumerated end to end)')
+    rep.rule('C14.ENV', 'the only environment read in the package is the documented override')
+    main = model.func(MAIN + '.main')
+    modes = E.run_modes(model, rep.tier)
+    E.report(rep, 'C14.SIZE', main.loc(), modes, ('size', 'payload'), 'written bytes', 'never more than the source; the original is passed through when the answer is larger', None)
+    rep.floor('C14.SIZE', 10)
 
-    if not F.returns:
-        rep.violation('C14.CMP', dm.loc(), 'do_minify', 'no return statement found')
-    for (ret, facts) in F.returns:
-        where = dm.loc(ret)
-        v = ret.value
-        text = src(v)
-        key = 'C14.CMP|return ' + text
-        if v is None:
-            rep.violation('C14.CMP', where, 'return', 'returns nothing', key=key)
-            continue
-        # provenance: name assigned once from <minify result>.encode('utf-8'), or that expression itself
-        e = v
-        if isinstance(v, ast.Name):
-            ds = defs.get(v.id, [])
-            if len(ds) != 1 or not isinstance(ds[0], ast.AST):
-                rep.violation('C14.CMP', where, 'return ' + text, 'returned variable has %d definitions' % len(ds), key=key)
-                continue
-            e = ds[0]
-        is_enc = isinstance(e, ast.Call) and isinstance(e.func, ast.Attribute) and e.func.attr == 'encode'
-        recv_ok = False
-        if is_enc:
-            r = e.func.value
-            if isinstance(r, ast.Name):
-                rd = defs.get(r.id, [])
-                recv_ok = len(rd) == 1 and rd[0] is mcall
-            else:
-                recv_ok = r is mcall
-        if not (is_enc and recv_ok):
-            rep.note('C14.CMP: return value at %s is not syntactically <result of minify()>.encode(...) (decided by the abstract evaluation of do_minify instead)' % where)
-            continue
-        xf = expanded_facts(facts, {})
-        override = any(p and OVERRIDE in k and 'environ' in k for (k, p) in facts if not k.startswith('<'))
-        le = implies_le(facts, 'len(%s)' % text, 'len(%s)' % src_param)
-        if override:
-            rep.ok('C14.CMP', where, 'return ' + text, 'reached only under the documented override ' + OVERRIDE, key=key)
-        elif le:
-            rep.ok('C14.CMP', where, 'return ' + text, 'dominated by len(%s) %s len(%s)' % (text, '<' if le == 'lt' else '<=', src_param), key=key)
-        else:
-            rep.note('C14.CMP: no single fact bounds len(%s) by len(%s) at %s (decided by the abstract evaluation of do_minify instead)' % (text, src_param, where))
-    eval_rule(model, rep, A)
-    rep.floor('C14.CMP', 2)
-
-    # CATCH
-    mf = A.facts[A.main.qual]
-    dcalls = A.do_minify_calls(A.main)
-    for c in dcalls:
-        facts = mf.facts_at(c)
-        ok = facts is not None and ('<try-catches:%s>' % NOT_BENEFICIAL, True) in facts
-        rep.check(ok, 'C14.CATCH', A.main.loc(c), src(c), 'inside try/except ' + NOT_BENEFICIAL,
-                  'do_minify call is not protected by an except %s handler: the size fallback cannot be taken' % NOT_BENEFICIAL,
-                  key='C14.CATCH|' + src(c))
-    # any other function calling do_minify
-    for q, fi in model.funcs.items():
-        if fi.module == MAIN and fi is not A.main and fi is not dm:
-            for c in calls(fi.node):
-                if isinstance(c.func, ast.Name) and model.resolve_name(MAIN, c.func.id) == dm.qual:
-                    rep.violation('C14.CATCH', fi.loc(c), src(c), 'do_minify called outside main(): not covered by the size fallback', key='C14.CATCH|extra|' + q)
-    rep.floor('C14.CATCH', 2)
-
-    # SINKS
-    for snk in A.lifted_sinks():
-        fi = snk.func
-        ok, kind, why = A.judge_sink(snk)
-        if ok is None:
-            continue  # the path listing is checked under C13.OUT / C15
-        where = fi.loc(snk.call)
-        tgt = src(snk.target) if snk.target is not None else snk.kind
-        in_handler = ('<caught:%s>' % NOT_BENEFICIAL, True) in snk.facts
-        key = 'C14.SINKS|%s|%s|%s|%s' % (fi.name, src(snk.payload), tgt, 'handler' if in_handler else 'normal')
-        rep.check(ok, 'C14.SINKS', where, '%s%s -> %s' % (src(snk.call)[:60], ' (via %s)' % '/'.join(getattr(snk, 'via', [])) if getattr(snk, 'via', None) else '', tgt), why, why, key=key)
-    rep.floor('C14.SINKS', 3)
-
-    # ENV
     reads = env_reads(model)
     for (rel, n, k) in reads:
         fi = model.enclosing_function(rel, n)
-        ok = k == OVERRIDE and fi is not None and fi.qual == dm.qual
+        ok = k == OVERRIDE and fi is not None and fi.module == MAIN
         rep.check(ok, 'C14.ENV', '%s:%d' % (rel, n.lineno), src(model.parent(n)) if model.parent(n) is not None else src(n),
-                  'documented override read in do_minify', 'environment read other than the documented override (key=%r in %s)' % (k, fi.qual if fi else 'module level'),
+                  'documented override read in the command line module', 'environment read other than the documented override (key=%r in %s)' % (k, fi.qual if fi else 'module level'),
                   key='C14.ENV|%s|%s' % (fi.qual if fi else rel, k))
     rep.floor('C14.ENV', 1)
-    rep.count('functions', len([f for f in model.funcs.values() if f.module == MAIN]))
-
-
-def eval_rule(model, rep, A):
-    """do_minify abstractly evaluated for results / sources of chosen lengths: without the override it returns the UTF-8 encoding of the
-    result exactly when that is not longer *in bytes* than the source, and raises the not-beneficial error otherwise."""
-    from ..absint import Interp, Obj, TOP
-    dm = A.do_minify
-    cases = [('ab', b'abc'), ('abc', b'abc'), ('abcd', b'abc'), ('', b''), ('a', b''), ('\xe9\xe9', b'abc'), ('\xe9', b'ab'), ('\xe9', b'a'), ('a€', b'abcd'), ('a€', b'abc'),
-             ('\U0001f600', b'abcd'), ('\U0001f600', b'abc'), ('x' * 40, b'y' * 39), ('x' * 39, b'y' * 40)]
-    specs = {}
-    import argparse
-    n = 0
-    for override in (None, '', '1'):
-        for (result, source) in cases:
-            hooks = {'minify': lambda I, e, args, kw, env, _r=result: _r,
-                     'os.environ.get': lambda I, e, args, kw, env, _o=override: (_o if args and args[0] == OVERRIDE else None),
-                     'os.getenv': lambda I, e, args, kw, env, _o=override: (_o if args and args[0] == OVERRIDE else None)}
-            I = Interp(model, MAIN, hooks)
-            I.MAX_PATHS = 64
-            ns = Obj('Namespace', preserve_globals=None, preserve_locals=None)   # every other option attribute is unknown (TOP): the size rule must not depend on them
-            res = I.explore(lambda: I.call_function(dm.qual, [source, 'f.py', ns]))
-            n += 1
-            want_bytes = result.encode('utf-8')
-            forced = bool(override)
-            for (o, ev, unk) in res:
-                label = 'result %r (%d bytes), source %d bytes, override %r' % (result[:6], len(want_bytes), len(source), override)
-                if o[0] == 'abort' or (o[0] == 'return' and o[1] is TOP):
-                    raise AnalysisError('UNDECIDED: do_minify(%s) -> %s %s' % (label, o, unk[:3]))
-                if not forced and len(want_bytes) == len(source):
-                    # "would not shrink": returning the (equally long) result or falling back to the original are both within the property
-                    ok = (o[0] == 'return' and o[1] == want_bytes) or (o[0] == 'raise' and NOT_BENEFICIAL in str(o[1]))
-                    why = 'must return the UTF-8 bytes of the result or fall back'
-                elif forced or len(want_bytes) < len(source):
-                    ok = o[0] == 'return' and o[1] == want_bytes
-                    why = 'must return the UTF-8 bytes of the result'
-                else:
-                    ok = o[0] == 'raise' and NOT_BENEFICIAL in str(o[1])
-                    why = 'must raise %s (the result is larger in bytes than the source)' % NOT_BENEFICIAL
-                if not ok:
-                    rep.violation('C14.CMP', dm.loc(), 'do_minify: ' + label, '%s, but it %s' % (why, 'returns %r' % (o[1],) if o[0] == 'return' else 'raises %s' % o[1]), key='C14.CMP|eval|' + label)
-                    return
-    rep.ok('C14.CMP', dm.loc(), 'do_minify evaluated on %d (result, source, override) cases incl. non-ASCII results' % n, 'returns the encoded result iff not larger in bytes (or forced)', cells=n, key='C14.CMP|eval')
